@@ -119,6 +119,13 @@ def gen_panel(r, g, n_geos, n_dates, cls='continuous', id_style='str', origin=No
     k = r.randrange(G)
     vals[k] = vals[k] * 10.0 ** r.choice([9, 11, 13])
     feats.append('giant:%d' % k)
+  if cls == 'high_level':
+    # a huge level with ordinary day-to-day variation (level / s.d. around 1e7 .. 1e9): one-pass variance formulas
+    # cancel catastrophically here, two-pass ones do not
+    lev = 10.0 ** r.choice([7, 8, 9])
+    for i in range(G):
+      vals[i] = sizes[i] * lev + (vals[i] - vals[i].mean())
+    feats.append('high_level')
   if cls == 'duplicates' and G >= 3:
     a, b = r.sample(range(G), 2)
     vals[b] = vals[a]
